@@ -229,4 +229,65 @@ def initTrial {ε : Type} (K : Nat) (evs : List ε) (sel : Option (Method ε))
     | some (evs2, P2) =>
       some { events := evs2, pairs := incTable K evs2.length P2 }
 
+/-! ### the manager object over a history of `initialize_trial` calls -/
+
+/-- the two members of a `TrialDataManager` that C05 is about: `_events`, `_src_evt_idxs` -/
+structure TdmObj (ε : Type) where
+  events : List ε
+  srcEvtIdxs : Option Pairs
+
+/-- a freshly constructed manager (`_events = None` is represented by no events) -/
+def TdmObj.fresh {ε : Type} : TdmObj ε := { events := [], srcEvtIdxs := none }
+
+/-- `initialize_trial` as a method of the object, statement by statement: `self.events = events`;
+`self._src_evt_idxs = None` (only if `reset`, a fact about the current source); selection; sort +
+re-index *if a table is stored*; default table *if none is stored*.  Returns the post-state
+(`none` = exception). -/
+def initTrialObj {ε : Type} (reset : Bool) (self : TdmObj ε) (K : Nat) (evs : List ε)
+    (sel : Option (Method ε)) (argsort : Option (List ε → List Nat)) : Option (TdmObj ε) :=
+  let s0 : TdmObj ε := { events := evs, srcEvtIdxs := if reset then none else self.srcEvtIdxs }
+  let s1? : Option (TdmObj ε) :=
+    match sel with
+    | none => some s0
+    | some m =>
+      match m s0.events none with
+      | none => none
+      | some r => some { events := r.events, srcEvtIdxs := some r.pairs }
+  match s1? with
+  | none => none
+  | some s1 =>
+    let s2? : Option (TdmObj ε) :=
+      match argsort with
+      | none => some s1
+      | some f =>
+        let σ := f s1.events
+        match take s1.events σ with
+        | none => none
+        | some sorted =>
+          match s1.srcEvtIdxs with
+          | none => some { events := sorted, srcEvtIdxs := none }
+          | some P =>
+            match reindex σ P with
+            | none => none
+            | some P' => some { events := sorted, srcEvtIdxs := some P' }
+    match s2? with
+    | none => none
+    | some s2 => some { events := s2.events, srcEvtIdxs := some (incTable K s2.events.length s2.srcEvtIdxs) }
+
+/-- one call of a history -/
+structure TdmCall (ε : Type) where
+  K : Nat
+  evs : List ε
+  sel : Option (Method ε)
+  argsort : Option (List ε → List Nat)
+
+/-- run a history of calls on one manager; a raising call leaves the object as it was before the
+call (simplification: C05 only looks at states after successful calls) -/
+def runCalls {ε : Type} (reset : Bool) (self : TdmObj ε) : List (TdmCall ε) → TdmObj ε
+  | [] => self
+  | c :: cs =>
+    match initTrialObj reset self c.K c.evs c.sel c.argsort with
+    | none => runCalls reset self cs
+    | some s => runCalls reset s cs
+
 end EvSel
